@@ -14,6 +14,7 @@ package mcp
 //@ set NEEDS_RUNTIME = {"instance_start", "instance_status", "instance_logs_tail", "instance_stop", "instance_reload"}
 //@ set MUTATING = {"config_apply", "management_endpoint_upsert", "management_endpoint_delete", "dlq_requeue", "dlq_delete", "messages_cancel", "messages_requeue", "messages_resume", "messages_publish", "messages_cancel_by_filter", "messages_requeue_by_filter", "messages_resume_by_filter", "instance_start", "instance_stop", "instance_reload"}
 //@ ghost var audits int
+//@ set ALLTOOLS = {"config_parse", "config_validate", "config_compile", "config_fmt_preview", "config_diff", "admin_health", "management_model", "backlog_top_queued", "backlog_oldest_queued", "backlog_aging_summary", "backlog_trends", "messages_list", "attempts_list", "dlq_list", "dlq_requeue", "dlq_delete", "messages_cancel", "messages_requeue", "messages_resume", "messages_publish", "messages_cancel_by_filter", "messages_requeue_by_filter", "messages_resume_by_filter", "instance_status", "instance_logs_tail", "config_apply", "management_endpoint_upsert", "management_endpoint_delete", "instance_start", "instance_stop", "instance_reload"}
 //@ pred knownTool(name string) := name in TOOLS_READ || name in TOOLS_OPERATE || name in TOOLS_ADMIN
 //@ func rankOf(r Role) int := ite(r == RoleAdmin, 3, ite(r == RoleOperate, 2, 1))
 //@ func requiredOf(name string) Role := ite(name in TOOLS_ADMIN, RoleAdmin, ite(name in TOOLS_OPERATE, RoleOperate, RoleRead))
@@ -184,8 +185,15 @@ package mcp
 
 // ---- C20: tools/list advertises exactly the tools a call would be allowed for ----
 
+//@ func managementLabelSchema
+//@   trusted
+//@   ensures result != nil && fresh(result)
+//@ func routePathSchema
+//@   trusted
+//@   ensures result != nil && fresh(result)
+
 //@ func (*Server).toolDescriptors
 //@   requires s != nil
+//@   abstract maps(map[string]any)
 //@   loop 1 invariant [listed_pass_the_gate] rangeindex < len(tools) && forall k int :: 0 <= k && k < len(filtered) ==> accessOK(s, filtered[k].Name)
-//@   loop 1 invariant [allowed_candidates_kept] forall j int :: 0 <= j && j <= rangeindex && accessOK(s, tools[j].Name) ==> exists k int :: 0 <= k && k < len(filtered) && filtered[k].Name == tools[j].Name
 //@   ensures [C20:every_listed_tool_would_be_allowed] forall k int :: 0 <= k && k < len(result) ==> accessOK(s, result[k].Name)
